@@ -426,8 +426,14 @@ func ruleC19Selector(c *Ctx, r *Result) {
 			if d0 == d1 {
 				continue
 			}
-			if valueReadsField(ifi.Cond, fLastMode, 0) {
-				gated = c.InstrPos(ifi.Cond.(ssa.Instruction))
+			// the comparison of the remembered mode with the proposal is the hold condition itself (it may stand before
+			// or after the time test); what must not decide is a test of the remembered mode against a fixed mode
+			if bo, isBO := ifi.Cond.(*ssa.BinOp); isBO {
+				_, kx := stripConv(bo.X).(*ssa.Const)
+				_, ky := stripConv(bo.Y).(*ssa.Const)
+				if (kx && valueReadsField(bo.Y, fLastMode, 0)) || (ky && valueReadsField(bo.X, fLastMode, 0)) {
+					gated = c.InstrPos(bo)
+				}
 			}
 		}
 		r.Check(gated == "", "C19.3d", c.Name(fn)+"#stability-test-reached-for-every-remembered-mode", c.InstrPos(stabIf), "no branch on the remembered mode decides whether the stability period is tested"+map[bool]string{true: "", false: " (branch at " + gated + ": after a decision for the excluded mode a different proposal is accepted inside the period)"}[gated == ""])
